@@ -272,10 +272,13 @@ def gen(stratum, rng, tier):
 # ---------------------------------------------------------------- judge
 
 def _graph(case):
+    from vf.common import fresh
+
     lab = case["labels"]
     g = {lab[k]: [] for k in case["keys"]}
     for u, v, c, w in case["arcs"]:
-        g.setdefault(lab[u], []).append((lab[v], c, w))
+        # arc heads are equal-but-distinct objects: node identity is by equality, never by `is`
+        g.setdefault(lab[u], []).append((fresh(lab[v]), c, w))
     return g
 
 
@@ -288,7 +291,7 @@ def _integral(x):
 
 
 def run(case, obs):
-    from vf.common import call, is_crash, short
+    from vf.common import call, fresh, is_crash, short
     from vf.oracles import flow as O
 
     n, s, t, lab = case["n"], case["s"], case["t"], case["labels"]
@@ -315,7 +318,7 @@ def run(case, obs):
         obs.mode("certificate_only")
         obs.nontrivial = True
 
-    res = call(obs, _flow.max_flow, _graph(case), lab[s], lab[t], what="max_flow", budget=3_000_000)
+    res = call(obs, _flow.max_flow, _graph(case), fresh(lab[s]), fresh(lab[t]), what="max_flow", budget=3_000_000)
     if is_crash(res):
         obs.outcome("crash")
         return
